@@ -306,8 +306,18 @@ def h_step_open(sym, params):
         if b.state is not CircuitState.CLOSED and (b._failures or any(b._class_failures.values())):
             return ("step_open:history_not_empty", f"from {init}: after {op} the breaker is {b.state.value} but keeps failures "
                                                    f"{list(b._failures)} (they would count after the next close)")
-        if b.state is CircuitState.CLOSED and [x for x in b._failures] != [x for (x, _c) in ref.hist]:
-            return ("step_open:history_after_close", f"from {init}: closed with history {list(b._failures)}, reference {ref.hist}")
+        if b.state is CircuitState.CLOSED:
+            # the deque may have pruned aged-out entries, but it holds nothing from before the close and every failure
+            # that is still inside the window
+            have = list(b._failures)
+            since_close = [x for (x, _c) in ref.hist]
+            for x in have:
+                if x not in since_close:
+                    return ("step_open:history_after_close", f"from {init}: closed breaker keeps {x}, which is not a failure recorded "
+                                                             f"since it closed ({since_close})")
+            for x in since_close:
+                if t - x < window and x not in have:
+                    return ("step_open:history_after_close", f"from {init}: failure at {x} is still inside the window but missing from {have}")
         if b._probe_in_flight and b.state is not CircuitState.HALF_OPEN:
             return ("step_open:probe_flag", f"probe flag set while {b.state.value}")
         if b.state is CircuitState.OPEN and b._opened_at != ref.opened_at:
